@@ -129,6 +129,8 @@ fn programs() -> Vec<(Program, bool, bool)> {
     p.tolerate_value_missing = true;
     v.push((p, false, false));
     v.push((mk("delete(k)||{tick} sweeping another expired key", vec![put(1, 2), put_ttl(2, 3, 1000), adv(3000)], vec![vec![del(1)], vec![Op::Tick]], reput.clone()), true, true));
+    // a lazy iterator over the key being deleted: every element fetched after delete() returned is a read of its own
+    v.push((mk("delete(k)||multi_get_iterator([k,k,k])", vec![put(1, 2)], vec![vec![del(1)], vec![Op::MultiRead { keys: vec![1, 1, 1], variant: ReadVariant::MultiGetIterator }]], reput.clone()), true, true));
     v.push((mk("delete(k);await;total_weight", vec![put(1, 2), put(2, 3)], vec![vec![del(1), Op::Await { call: 0 }, Op::TotalWeight]], vec![]), true, false));
     v.push((mk("delete(k);await;total_weight /ttl", vec![put_ttl(1, 2, 5000), put(2, 3)], vec![vec![del(1), Op::Await { call: 0 }, Op::TotalWeight]], vec![]), true, false));
     v.push((mk("delete(k);await;put(k);get(k)||get(k)", vec![put(1, 2)], vec![vec![del(1), Op::Await { call: 0 }, put(1, 3), Op::Await { call: 2 }, get(1)], vec![get(1)]], vec![]), false, false));
